@@ -197,9 +197,9 @@ func runC02(a *A) {
 				if farFuture != nil && c.Call.StaticCallee() == farFuture {
 					return F
 				}
-				if timeMethod(&c.Call) == "After" && len(c.Call.Args) == 2 {
-					if _, isParam := resolveBound(c.Call.Args[0]).(*ssa.Parameter); isParam {
-						if strings.Contains(TermOf(c.Call.Args[1], nil).String(), "maxFutureSlack") || guardLooksLikeCeiling(c.Call.Args[1]) {
+				if early, late, isCmp := timeOrder(c); isCmp {
+					if _, isParam := resolveBound(late).(*ssa.Parameter); isParam {
+						if strings.Contains(TermOf(early, nil).String(), "maxFutureSlack") || guardLooksLikeCeiling(early) {
 							return F
 						}
 					}
@@ -370,11 +370,16 @@ func (a *A) ruleFutureGuard() {
 	scan := func(f *ssa.Function, fr *frame) {
 		allInstrs(f, func(in ssa.Instruction) {
 			c, ok := in.(*ssa.Call)
-			if !ok || timeMethod(&c.Call) != "After" {
+			if !ok {
 				return
 			}
-			x := TermOf(c.Call.Args[0], fr)
-			y := TermOf(c.Call.Args[1], fr)
+			// eventTime.After(ceiling), or the same read from the other side: ceiling.Before(eventTime)
+			early, late, isCmp := timeOrder(c)
+			if !isCmp {
+				return
+			}
+			x := TermOf(late, fr)
+			y := TermOf(early, fr)
 			if x.Kind == "param" && x.Fn == fn && y.Kind == "call" && y.Name == "(time.Time).Add" && len(y.Args) == 2 && y.Args[0].Kind == "call" && y.Args[0].Name == "time.Now" {
 				ceilT = y
 				ceilPos = in.Pos()
@@ -898,21 +903,18 @@ func (a *A) wmAtomKind(v ssa.Value, f *ssa.Function) string {
 			return "far"
 		}
 	}
-	if f == nil || len(c.Call.Args) != 2 {
+	if f == nil {
 		return ""
 	}
-	if _, isParam := resolveBound(c.Call.Args[0]).(*ssa.Parameter); !isParam {
+	early, late, isCmp := timeOrder(c)
+	if !isCmp {
 		return ""
 	}
-	switch timeMethod(&c.Call) {
-	case "Before":
-		if strings.Contains(TermOf(c.Call.Args[1], nil).String(), "currentWatermark") {
-			return "late"
-		}
-	case "After":
-		if guardLooksLikeCeiling(c.Call.Args[1]) && strings.Contains(TermOf(c.Call.Args[1], nil).String(), "maxOutOfOrderness") {
-			return "far"
-		}
+	if _, isParam := resolveBound(early).(*ssa.Parameter); isParam && strings.Contains(TermOf(late, nil).String(), "currentWatermark") {
+		return "late" // ts before the watermark
+	}
+	if _, isParam := resolveBound(late).(*ssa.Parameter); isParam && guardLooksLikeCeiling(early) && strings.Contains(TermOf(early, nil).String(), "maxOutOfOrderness") {
+		return "far" // ts after the ceiling
 	}
 	return ""
 }
